@@ -51,7 +51,7 @@ def cases(tier, rng):
     yield {'kind': 'mux', 'term': [['tee', 'zip', [[['count', False]], [['map', ['add', 10]]]]]], 'items': [1, 2, 3]}
     yield {'kind': 'mux', 'term': [['tee', 'combine_latest', [[['filter', ['is_even']]], [['count', True]], [['identity']]]]], 'items': [1, 2, 3, 4]}
     yield {'kind': 'plain', 'term': [['tee', 'zip', [[['sum', None, True]], [['last']], [['first']]]]], 'items': [1, 2, 3, 4]}
-    n = {'quick': 500, 'thorough': 10000, 'search': 600}[tier]
+    n = {'quick': 1500, 'thorough': 10000, 'search': 600}[tier]
     for _ in range(n):
         nb = rng.choice([2, 2, 3, 4])
         mode = rng.choice(['zip', 'merge', 'combine_latest'])
